@@ -189,6 +189,9 @@ func (t *WeightedMerkleTrie) deserializeTrie(pairs []*PersistTriePair, ind *int)
 		return nil, errors.New("index out of bounds")
 	}
 
+	if pairs[*ind] == nil {
+		return nil, errors.New("invalid node")
+	}
 	node, err := DeserializeNode(pairs[*ind].Value)
 	if err != nil {
 		return nil, err
